@@ -68,7 +68,7 @@ def check_program(col, pp, cfg, prog):
     R = world.real
     eager = programs.run_eager(pp, R, prog)
     programs.set_rel_tol(world, eager, prog)
-    rr = programs.run_recipe(pp, R, prog, bake=False, uses_as_list=len(prog['steps']) % 2 == 0)
+    rr = programs.run_recipe(pp, R, prog, bake=False, uses_as_list=[False, True, 'iter'][len(prog['steps']) % 3])
     case = prog
     steps = programs.real_steps(prog)
     kinds = '+'.join(sorted({s['op'] for s in steps}))
